@@ -22,7 +22,7 @@ LLVM_PROFILE_FILE="$T/prof/C05c-%p-%m.profraw" $T/h/release/nv C05conf $TIER $T/
 LLVM_PROFILE_FILE="$T/prof/C05-%p-%m.profraw" $T/s/release/nv-sched $TIER $T/root/target/c05-conf.json 2>&1 | grep -E "^C05 " | cut -c1-160
 fi
 $BIN/llvm-profdata merge -sparse $T/prof/*.profraw -o $T/all.profdata || exit 2
-$BIN/llvm-cov report -instr-profile=$T/all.profdata $T/h/release/nv -object $T/s/release/nv-sched /repo/src 2>$T/cov.err | grep -E "Filename|src/|TOTAL|^-" > "$ROOT/coverage/SUMMARY.txt"
+$BIN/llvm-cov report -instr-profile=$T/all.profdata $T/h/release/nv -object $T/s/release/nv-sched /repo/src 2>$T/cov.err | cut -c1-175 > "$ROOT/coverage/SUMMARY.txt"
 $BIN/llvm-cov export -format=lcov -instr-profile=$T/all.profdata $T/h/release/nv -object $T/s/release/nv-sched /repo/src 2>>$T/cov.err > $T/all.lcov; head -5 $T/cov.err
 python3 - "$T/all.lcov" "$ROOT/coverage/UNCOVERED.txt" <<'EOF'
 import sys, re, collections
